@@ -285,6 +285,57 @@ func (m *monitor) checkSeparation(stream string, idx int, r *core.Rand) {
 	m.c.Nontrivial(core.Hash64("sep|" + src))
 }
 
+// checkSeparation2: statements that start with a token which could also
+// continue the previous line ('[', '(', 'not', '{') stay separate statements
+// when they follow a line break - with or without comments between the line
+// break and the token. ('(' is not used: an identifier followed by '(' on the
+// next line is a call in this language, comments or not.)
+func (m *monitor) checkSeparation2(stream string, idx int, r *core.Rand) {
+	type st struct{ text, name string }
+	kinds := []st{{"[p, q] := l", parser.NodeASSIGN}, {"not true", parser.NodeNOT}, {"{\"k\" : 1}", parser.NodeMAP},
+		{"[l, l]", parser.NodeLIST}, {"x := 1", parser.NodeASSIGN}}
+	n := 2 + r.Intn(4)
+	var b strings.Builder
+	b.WriteString("l := [1, 2]")
+	want := []string{parser.NodeASSIGN}
+	for i := 1; i < n; i++ {
+		b.WriteString("\n")
+		for j := r.Intn(3); j > 0; j-- { // whole comment lines in between (no '#': known column deviation is irrelevant here, lines are not)
+			b.WriteString([]string{"/* c */\n", "/* a\n b */\n", "    /* c */  \n"}[r.Intn(3)])
+		}
+		b.WriteString([]string{"", "", "/* c */ ", "/* a\n b */ ", "  ", "/* c *//* d */ ", "\t/* c */\t"}[r.Intn(7)])
+		k := kinds[r.Intn(len(kinds))]
+		b.WriteString(k.text)
+		want = append(want, k.name)
+	}
+	src := b.String()
+	var tree *parser.ASTNode
+	var err error
+	key, msg, panicked := core.Guard(func() { tree, err = parser.Parse(srcName, src) })
+	if panicked {
+		m.violation(key, "panic in Parse", stream, idx, src, map[string]interface{}{"panic": trunc(msg, 1500)})
+		return
+	}
+	if err != nil || tree == nil {
+		m.violation("diff:separation-parse-error", fmt.Sprintf("a program of %d statements on separate lines (some starting with '[', '(', 'not', '{' after a comment) does not parse: %v", n, err),
+			stream, idx, src, nil)
+		return
+	}
+	if tree.Name != parser.NodeSTATEMENTS || len(tree.Children) != n {
+		m.violation("diff:separation-count", fmt.Sprintf("%d statements on separate lines parse into %d statement(s)", n, len(tree.Children)),
+			stream, idx, src, map[string]interface{}{"root": tree.Name})
+		return
+	}
+	for i, ch := range tree.Children {
+		if ch == nil || ch.Name != want[i] {
+			m.violation("diff:separation-shape", fmt.Sprintf("statement %d is a %v, expected %s", i+1, ch, want[i]), stream, idx, src, nil)
+			return
+		}
+	}
+	m.ev("separation2.ok")
+	m.c.Nontrivial(core.Hash64("sep2|" + src))
+}
+
 // planted parse errors
 func (m *monitor) checkParseError(stream string, idx int, r *core.Rand) {
 	n := 2 + r.Intn(4)
@@ -622,6 +673,9 @@ func Run(c *core.Ctx) {
 	// (c) programs: separation, planted errors, break points
 	np := c.Pick(20000, 500000)
 	for i := 0; i < np; i++ {
+		if c.Take("sep2", i) {
+			m.checkSeparation2("sep2", i, c.Rng("sep2", i))
+		}
 		if c.Take("sep", i) {
 			c.Begin(0, "sep", i, "")
 			m.checkSeparation("sep", i, c.Rng("sep", i))
